@@ -483,3 +483,27 @@ pub fn txin_value_plain() {
     core::mem::forget(n);
     core::mem::forget(v);
 }
+
+//@ prop=C01 tier=quick mem=8 timeout=900 desc="header kind: is_dynafed() is true exactly for headers carrying dynafed data, whatever the parameters (null/null included) -- the predicate the encoder's marker bit and the block hash are keyed on (encoding the header itself ran out of memory)"
+#[kani::proof]
+#[kani::unwind(6)]
+pub fn header_kind_predicate() {
+    use elements::hashes::Hash;
+    let mk = |ext| elements::BlockHeader {
+        version: kani::any(),
+        prev_blockhash: elements::BlockHash::from_byte_array(kani::any()),
+        merkle_root: elements::TxMerkleNode::from_byte_array(kani::any()),
+        time: kani::any(),
+        height: kani::any(),
+        ext,
+    };
+    let d = mk(elements::BlockExtData::Dynafed { current: elements::dynafed::Params::Null, proposed: elements::dynafed::Params::Null, signblock_witness: vec![] });
+    assert!(d.is_dynafed(), "a header with dynafed data is a dynafed header, also with null/null parameters");
+    assert!(d.dynafed_current().is_some() && d.dynafed_proposed().is_some());
+    let p = mk(elements::BlockExtData::Proof { challenge: Script::new(), solution: Script::new() });
+    assert!(!p.is_dynafed() && p.dynafed_current().is_none(), "a legacy-proof header is not");
+    let dflt = mk(elements::BlockExtData::default());
+    assert!(dflt.is_dynafed(), "the default ext data is dynafed");
+    kani::cover!(true, "reached");
+    core::mem::forget((d, p, dflt));
+}
